@@ -75,6 +75,13 @@ class RefDC:
         return len(self.getkey_log)
 
     # ---- endpoint mapper --------------------------------------------------
+    def _too_many(self, what: str) -> None:
+        """A client that never stops asking must not hang a run: past 300 requests of one kind the simulation ends the conversation
+        with the outcome 'spin' (net.Spin is a BaseException: it unwinds through the client's own handlers)."""
+        from simworld import net
+
+        raise net.Spin(f"the client made more than 300 {what} requests in one run: it keeps asking")
+
     def _ept_map(self, server, conn, req):
         entry = {"conn": conn.cid, "opnum": req["opnum"], "sealed": req["sealed"]}
         self.epm_log.append(entry)
@@ -120,6 +127,8 @@ class RefDC:
         entry: t.Dict[str, t.Any] = {"conn": conn.cid, "opnum": req["opnum"], "sealed": req["sealed"], "auth_level": req["auth_level"],
                                      "authenticated": req["authenticated"], "ctx_id": req["pdu"]["ctx_id"], "vt": None}
         self.getkey_log.append(entry)
+        if len(self.getkey_log) > 300:
+            self._too_many("GetKey")
         if req["opnum"] != 0:
             entry["error"] = "opnum"
             return ("fault", peers.NCA_S_OP_RNG_ERROR)
